@@ -46,6 +46,12 @@ def run(rep, ctx):
         borrow(rep, c05.r2_getinfo, ctx, "C05.R2", "C14.R10", keep=lambda o: o.key == "GetInfo:first-lookup-as-given")
     except AnalysisError as e:
         rep.error("C14.R10", str(e))
+    from . import c15
+    rep.rule("C14.R12", "a unit or category can be used as soon as it is registered: registration clears the verdicts cached before it (shared with C15.R3)")
+    try:
+        borrow(rep, c15.r3_coherence, ctx, "C15.R3", "C14.R12", keep=lambda o: "_category_unit_valid" in o.key)
+    except AnalysisError as e:
+        rep.error("C14.R12", str(e))
     from . import c16, c20
     rep.rule("C14.R11", "a registered unit builds a Quantity under the spelling it was registered with: the constructor stores the unit as asked, and falls back to the rewritten legacy spelling only after the unit as given was refused (shared with C20.R3 / C16.R4)")
     try:
@@ -333,6 +339,18 @@ def r9_valid_units(rep, ctx):
     ctor = [c for c in own_nodes(fn.node) if isinstance(c, ast.Call) and isinstance(c.func, ast.Name) and c.func.id == "CategoryInfo"]
     if len(ctor) != 1:
         raise AnalysisError("AddCategory: the CategoryInfo(...) construction was not found")
+    # the units that valid_units / default_unit are tested against are those of the quantity type that is stored:
+    # every GetUnits(...) / GetBaseUnit(...) of the method is asked with the value `quantity_type` has at the construction
+    kw = {k_.arg: k_.value for k_ in ctor[0].keywords}
+    qt_arg = kw.get("quantity_type", ctor[0].args[1] if len(ctor[0].args) > 1 else None)
+    if qt_arg is not None:
+        stored_qt = res.term(qt_arg)
+        for c_ in own_nodes(fn.node):
+            if isinstance(c_, ast.Call) and isinstance(c_.func, ast.Attribute) and c_.func.attr in ("GetUnits", "GetBaseUnit") and c_.args and res.term(c_.func.value) == ("self",):
+                asked = res.term(c_.args[0])
+                rep.check(asked == stored_qt, "C14.R9", "AddCategory:units-of-the-stored-type:%s" % norm(ast.unparse(c_))[:50], "the units a category's default / valid units are drawn from are those of the quantity type it is stored with",
+                          "`%s` is evaluated with quantity type %s while the category is stored with %s (the value is taken before the quantity type is final): units of another quantity type pass the membership tests"
+                          % (norm(ast.unparse(c_))[:60], show(asked, 60), show(stored_qt, 60)), node=c_, fn=fn)
     # the validating loops: iterate valid_units (possibly through enumerate) and raise on `<element> not in <units of the quantity type>`
     loops = []
     for lp in own_statements(fn.node):
